@@ -572,6 +572,13 @@ class Folder:
                         self._depth -= 1
                     return res if kind == "return" else UNKNOWN
             return UNKNOWN
+        if isinstance(f, ast.Attribute) and isinstance(f.value, ast.Name) and f.attr == "Struct" and f.value.id not in env and len(args) == 1 and not kwargs and not has_star and isinstance(args[0], (str, bytes)):
+            s_ = self.model.resolve(module.name, f.value.id)
+            if s_ is not None and s_.kind == "module" and s_.target == "struct":
+                try:
+                    return struct.Struct(args[0])  # a compiled constant format: used like the format text itself
+                except struct.error:
+                    return UNKNOWN
         if isinstance(f, ast.Attribute) and isinstance(f.value, ast.Name) and f.attr in ("compile", "fullmatch", "match", "search") and f.value.id not in env:
             s_ = self.model.resolve(module.name, f.value.id)
             if s_ is not None and s_.kind == "module" and s_.target == "re" and not has_star and args and is_known(args) and is_known(list(kwargs.values())) and isinstance(args[0], (str, bytes)):
@@ -584,6 +591,11 @@ class Folder:
             meth = f.attr
             import re as _re
 
+            if isinstance(recv, struct.Struct) and meth in ("pack", "unpack", "unpack_from") and not has_star and not kwargs and is_known(args):
+                try:
+                    return getattr(recv, meth)(*args)
+                except (struct.error, TypeError):
+                    return UNKNOWN
             if isinstance(recv, _re.Pattern) and meth in ("fullmatch", "match", "search", "findall", "split", "sub") and not has_star and is_known(args):
                 return getattr(recv, meth)(*args, **kwargs)
             if isinstance(recv, _re.Match) and meth in ("group", "groups", "groupdict", "start", "end", "span") and not has_star and is_known(args):
